@@ -319,6 +319,10 @@ def wrap_sites(tx, sites, skips=None):
     return out
 
 
+# site classes currently excluded from `block`; checks/c13.py removes a class when its witness no longer fails
+EXCLUDED_BLOCK_CLASSES = {'generic-member-callee', 'method-callee-on-generic-receiver'}
+
+
 def block_excluded(e, generic_member, receiver):
     """Classes of sites where `{ e }` is known not to be accepted / compiled like `e` (reported findings; the
     dedicated witnesses of checks/c13.py replay them):
@@ -328,14 +332,14 @@ def block_excluded(e, generic_member, receiver):
       (not called directly) makes the compiler panic in generics specialization."""
     if e['role'] == 'callee' and e['k'] in ('method', 'field'):
         if e['i'] in generic_member:
-            return 'generic-member-callee'
+            return 'generic-member-callee' if 'generic-member-callee' in EXCLUDED_BLOCK_CLASSES else None
         r = receiver.get(e['i'])
-        if e['k'] == 'method' and r is not None and '<' in r['ty']['s']:
+        if e['k'] == 'method' and r is not None and '<' in r['ty']['s'] and 'method-callee-on-generic-receiver' in EXCLUDED_BLOCK_CLASSES:
             return 'method-callee-on-generic-receiver'
     return None
 
 
-def wrap_variants(prog, module, sites, rng, cap, skips=None):
+def wrap_variants(prog, module, sites, rng, cap, skips=None, exhaustive=False):
     tx = Text(prog['sources'][module])
     ws = wrap_sites(tx, sites, skips)
     out = []
@@ -344,14 +348,17 @@ def wrap_variants(prog, module, sites, rng, cap, skips=None):
     chosen = ws if len(ws) <= cap else sorted(rng.shuffle(ws)[:cap], key=lambda x: x[0]['i'])
     for e, s, t in chosen:
         desc = {'expr': e['i'], 'k': e['k'], 'role': e['role'], 'loc': e['loc'], 'type': e['ty']['s']}
-        mode = 'paren' if rng.chance(1, 2) else 'block'
-        if mode == 'block':
-            why = block_excluded(e, generic_member, receiver)
-            if why:
-                _skip(skips, 'block:' + why)
-                mode = 'paren'
-        l, r = (b'(', b')') if mode == 'paren' else (b'{ ', b' }')
-        out.append(_mk(prog, module, mode, desc, apply_edits(tx.b, [(s, s, l, 0), (t, t, r, 0)])))
+        modes = ['paren', 'block'] if exhaustive else ['paren' if rng.chance(1, 2) else 'block']
+        for mode in modes:
+            if mode == 'block':
+                why = block_excluded(e, generic_member, receiver)
+                if why:
+                    _skip(skips, 'block:' + why)
+                    if exhaustive:
+                        continue
+                    mode = 'paren'
+            l, r = (b'(', b')') if mode == 'paren' else (b'{ ', b' }')
+            out.append(_mk(prog, module, mode, desc, apply_edits(tx.b, [(s, s, l, 0), (t, t, r, 0)])))
     # many parentheses at once (nested sites allowed: identical tokens, any order)
     if len(ws) >= 2:
         many = [w for w in ws if rng.chance(1, 2)]
@@ -466,6 +473,11 @@ def split_variants(prog, module, sites, rng, cap, skips=None, entry_class='Main'
     tops = sites['toplevels']
     if len(tops) < 2:
         return []
+    if module == 'std.tuples':
+        # tuple expressions and patterns are typed as std.tuples.Pair / Triple / TupleN by the checker itself
+        # (main_checker.rs check_tuple): these classes cannot live anywhere else
+        _skip(skips, 'split:module-known-to-the-compiler')
+        return []
     new_mod = 'Zsplit'
     k = 0
     while new_mod in prog['sources'] or new_mod in all_identifiers(prog['sources']):
@@ -550,13 +562,16 @@ def imported_elsewhere(prog, module):
     return keep
 
 
-def variants(prog, module, sites, rng, cap=30, skips=None):
-    """Up to ~cap variants of one module, spread over the rewrite kinds."""
+def variants(prog, module, sites, rng, cap=30, skips=None, exhaustive=False):
+    """Up to ~cap variants of one module, spread over the rewrite kinds.  exhaustive: every site (cap ignored),
+    parentheses AND block at every expression."""
+    if exhaustive:
+        cap = 10 ** 6
     per = {'rename': cap // 5 + 1, 'reorder': cap // 6 + 1, 'wrap': cap // 3 + 1, 'annot': cap // 4 + 1, 'split': max(2, cap // 10)}
     out = []
     out += rename_variants(prog, module, sites, rng.fork(), per['rename'], skips)
     out += reorder_variants(prog, module, sites, rng.fork(), per['reorder'], skips)
-    out += wrap_variants(prog, module, sites, rng.fork(), per['wrap'], skips)
+    out += wrap_variants(prog, module, sites, rng.fork(), per['wrap'], skips, exhaustive)
     out += annot_variants(prog, module, sites, rng.fork(), per['annot'], skips)
     out += split_variants(prog, module, sites, rng.fork(), per['split'], skips, keep=imported_elsewhere(prog, module))
     return out
